@@ -378,7 +378,7 @@ def _paa_outer_events(S, evs):
     return And(Eq(s.values.len, g["m"]), ForAll(lambda f: Eq(s.values.fn(f), _paa_mean(g, S.k, f, ell)), 0, g["m"], "f"))
 
 
-contract(f"{PAA}::PAA._perform_paa_along_dim", "C14", cases=["-"], inputs=_paa_inputs,
+contract(f"{PAA}::PAA._perform_paa_along_dim", "C14,C16", cases=["-"], inputs=_paa_inputs,
          invariants={0: lambda S: True, 1: _paa_inner_inv}, events={0: _paa_outer_events},
          loop_havoc={0: {"data": _acc_havoc}, 1: {"frames": _paa_frames_havoc}},
          ensures=[("one-column-holding-the-per-instance-series",
